@@ -66,8 +66,20 @@ func init() {
 			}
 		})
 		if tr := c.Fn("x/subscription/keeper.Keeper.AddTrackedCu"); tr != nil {
-			for _, s := range c.CallsByName(tr, false, "invoke:x/subscription/types.RewardsKeeper.AggregateCU") {
+			aggSites := c.CallsByName(tr, false, "invoke:x/subscription/types.RewardsKeeper.AggregateCU")
+			for _, s := range aggSites {
 				c.RequireArgNamesAgree("C42a", s)
+				// AddTrackedCu(recv, ctx, sub, provider, chainID, cuToAdd, block) reports (ctx, sub, provider, chainID, cuToAdd):
+				// the CU of this payment, not the accumulated tracked CU
+				a := ir.CallOf(s.Instr).Args
+				if len(a) == 5 && len(tr.Params) == 7 && a[1] == ssa.Value(tr.Params[2]) && a[2] == ssa.Value(tr.Params[3]) && a[3] == ssa.Value(tr.Params[4]) && a[4] == ssa.Value(tr.Params[5]) {
+					c.OK("C42a/AddTrackedCu/reports-this-payment's-cu-for-its-own-sub-provider-chain", c.P.InstrPos(s.Instr), "AggregateCU(ctx, sub, provider, chainID, cuToAdd)")
+				} else {
+					c.Fail("C42a/AddTrackedCu/reports-this-payment's-cu-for-its-own-sub-provider-chain", c.P.InstrPos(s.Instr), "the IPRPC CU reported for a relay payment is "+strings.Join(argDescs(ir.CallOf(s.Instr)), ", ")+" — not the payment's own (sub, provider, chain, cuToAdd): an accumulated or foreign amount is added to the provider's monthly IPRPC CU")
+				}
+			}
+			if len(aggSites) != 1 {
+				c.Undecided("C42a: expected one AggregateCU call in AddTrackedCu, found %d", len(aggSites))
 			}
 		}
 
@@ -381,6 +393,26 @@ func init() {
 			c.OK("C42e/countIprpcCu/appends-provider-and-adds-to-total", c.P.Pos(cnt.Pos()), "")
 		} else {
 			c.Fail("C42e/countIprpcCu/appends-provider-and-adds-to-total", c.P.Pos(cnt.Pos()), "a provider's CU is not both listed and added to the spec total: shares no longer sum to the fund")
+		}
+
+		// a spec gets an entry in the spec→CU map only for a non-zero IPRPC CU: an entry with no CU
+		// would take the spec off the roll-over paths (C42c) and send its whole fund to the community pool
+		nUpd := 0
+		ir.EachInstr(cnt, func(in ssa.Instruction) {
+			mu, ok := in.(*ssa.MapUpdate)
+			if !ok || len(cnt.Params) < 2 || mu.Map != ssa.Value(cnt.Params[1]) {
+				return
+			}
+			nUpd++
+			key := "C42e/countIprpcCu/map-entry-only-for-non-zero-cu#" + itoa(nUpd)
+			if okG, _ := divisorGuarded(in, cnt.Params[2]); okG {
+				c.OK(key, c.P.InstrPos(in), "under iprpcCu != 0")
+			} else {
+				c.Fail(key, c.P.InstrPos(in), "the spec→CU map gets an entry although the record's IPRPC CU may be zero: a spec nobody served with IPRPC traffic no longer rolls its fund over (C42c keys on the entry's absence) and the fund goes to the community pool as leftovers")
+			}
+		})
+		if nUpd == 0 {
+			c.Undecided("C42e: countIprpcCu no longer writes the spec→CU map it is given")
 		}
 
 		c.Rule("C42f funding: FundIprpc reaches addSpecFunds only past both bank transfers having succeeded (min cost × duration to the validators allocation pool, (fund − min cost) × duration to the IPRPC pool) for an active spec, and records (fund − min cost) for `duration` months starting next month")
